@@ -14,9 +14,9 @@ RULE = ("histories of 1..30 operations drawn by a Hypothesis state machine from:
         "setcolumn, item and attribute assignment (scalar/array), in-place writes through the attribute, item "
         "and getcolumn views, filter, removerows (integer and tolerance), sortby, reorder, copy, copyrows "
         "(mask/index/slice), get_bigarray, set_bigarray (list and 2-D array), writefile+readfile, wrong-length "
-        "rejections, mutation of earlier copies; four initial states (empty+addcolumn, dict-built, text-file "
+        "rejections, mutation of earlier copies; five initial states (empty+addcolumn, dict-built, dict of strided views of one table, text-file "
         "loaded, HDF loaded); plus exhaustive enumeration of all sequences to depth 3 (quick) / 4 (thorough) "
-        "over a fixed 14-operation alphabet from each initial state; oracle = ordered-dict model + aliasing "
+        "over a fixed 14-operation alphabet from each initial state; arrays handed in are contiguous or strided views; oracle = ordered-dict model + aliasing "
         "probe + storage-independence of copies; non-trivial history = contains get_bigarray/set_bigarray "
         "followed by a mutator, or a copy followed by a mutation of the source; distinct = hash of the "
         "history")
@@ -24,7 +24,7 @@ ASSUMPTIONS = ["columns are assigned as numpy arrays or scalars (the statement's
                "sortby is checked as 'sort column ascending and the same permutation applied to every column' "
                "(tie order is not prescribed)",
                "values are multiples of 0.5 so that the text round trip is exact"]
-EXHAUSTIVE = "all operation sequences to depth 3 (quick) / 4 (thorough) over the fixed alphabet, 4 initial states"
+EXHAUSTIVE = "all operation sequences to depth 3 (quick) / 4 (thorough) over the fixed alphabet, 5 initial states"
 
 NAMES = ["a", "b", "c", "d"]
 MUTATORS = {"addcolumn", "setcolumn", "setitem_scalar", "setitem_array", "setattr_scalar", "setattr_array",
@@ -49,6 +49,10 @@ class Harness(object):
         arrays = {t: np.array(cols[t], float) for t in titles}
         if kind == "dict":
             self.cf = columnfile.colfile_from_dict(arrays)
+        elif kind == "views":
+            # columns are strided views of one row-major (nrows x ncols) table
+            tab = np.array([cols[t] for t in titles], float).T.copy().reshape(n, len(titles))
+            self.cf = columnfile.colfile_from_dict({t: tab[:, j] for j, t in enumerate(titles)})
         elif kind == "empty":
             self.cf = columnfile.newcolumnfile([])
             self.cf.nrows = n
@@ -80,7 +84,14 @@ class Harness(object):
         return getattr(self, "op_" + op)(*args)
 
     def _arr(self, vals):
-        return np.array([float(v) for v in vals], float)
+        """columns handed to the columnfile: contiguous arrays, or (every third operation) strided
+        views of a larger buffer, as produced by slicing a 2-D table"""
+        v = [float(x) for x in vals]
+        if len(self.history) % 3 == 0 and len(v) > 0:
+            buf = np.zeros((len(v), 3), float)
+            buf[:, 1] = v
+            return buf[:, 1]
+        return np.array(v, float)
 
     def op_addcolumn(self, name, vals):
         self.cf.addcolumn(self._arr(vals), name)
@@ -170,7 +181,10 @@ class Harness(object):
     def op_set_bigarray(self, twod, table):
         # table: list of rows-per-title (len = number of titles)
         ar = [np.array(r, float) for r in table]
-        self.cf.bigarray = np.array(ar, float) if twod else ar
+        if twod == 2:        # transposed view of a row-major (nrows x ncols) table
+            self.cf.bigarray = np.array(ar, float).T.copy().T
+        else:
+            self.cf.bigarray = np.array(ar, float) if twod else ar
         for t, r in zip(self.cf.titles, table):
             self.model[t] = [float(x) for x in r]
         self.n = len(table[0])
@@ -389,7 +403,7 @@ def make_machine(tmpdir):
                 HOLDER["fails"] = unknown
                 raise Violation(unknown[0]["kind"])
 
-        @initialize(kind=st.sampled_from(["dict", "empty", "text", "hdf"]), n=st.integers(1, 6),
+        @initialize(kind=st.sampled_from(["dict", "views", "empty", "text", "hdf"]), n=st.integers(1, 6),
                     k=st.integers(1, 3), data=st.data())
         def init(self, kind, n, k, data):
             cols = {}
@@ -463,7 +477,7 @@ def make_machine(tmpdir):
         def get_bigarray(self):
             self.do("get_bigarray", [])
 
-        @rule(data=st.data(), twod=st.booleans(), newn=st.one_of(st.none(), st.integers(1, 6)))
+        @rule(data=st.data(), twod=st.sampled_from([0, 1, 2]), newn=st.one_of(st.none(), st.integers(1, 6)))
         def set_bigarray(self, data, twod, newn):
             n = self.h.n if newn is None else newn
             table = [data.draw(st.lists(VALS, min_size=n, max_size=n)) for _ in self.h.model]
@@ -521,7 +535,7 @@ def alphabet(n):
     """fixed small arguments; sequences over this alphabet are enumerated exhaustively."""
     return [
         ("get_bigarray", []),
-        ("set_bigarray", [True, None]),           # table filled in at run time (depends on titles)
+        ("set_bigarray", [2, None]),              # table filled in at run time (depends on titles)
         ("setitem_scalar", ["a", 7.0]),
         ("setattr_scalar", ["a", 9]),
         ("setattr_array", ["a", "ramp"]),
@@ -552,7 +566,7 @@ def run_sequence(init, seq, tmpdir):
         n = h.n
         a = list(args)
         if op == "set_bigarray":
-            a = [True, [[float(i + 10 * k) for i in range(max(n, 1))] for k, _ in enumerate(h.model)]]
+            a = [2, [[float(i + 10 * k) for i in range(max(n, 1))] for k, _ in enumerate(h.model)]]
         a = [([float(i) for i in range(n)] if x == "ramp" else
               ([float(n - i) for i in range(n)] if x == "ramp2" else
                ([True] * (n - 1) + [False] if x == "head" else
@@ -594,7 +608,8 @@ def run_shard(rec):
     inits = [("dict", 3, {"a": [3., 1., 2.], "b": [0.5, 0.5, -1.]}),
              ("empty", 3, {"a": [3., 1., 2.], "b": [0.5, 0.5, -1.]}),
              ("text", 3, {"a": [3., 1., 2.], "b": [0.5, 0.5, -1.]}),
-             ("hdf", 3, {"a": [3., 1., 2.], "b": [0.5, 0.5, -1.]})]
+             ("hdf", 3, {"a": [3., 1., 2.], "b": [0.5, 0.5, -1.]}),
+             ("views", 3, {"a": [3., 1., 2.], "b": [0.5, 0.5, -1.]})]
     alpha = alphabet(3)
     seqs = itertools.product(range(len(alpha)), repeat=depth)
     nv = 0
